@@ -146,21 +146,32 @@ Proof.
   - specialize (Hev Sc eq_refl). unfold enter_scope.
     set (parent := parent_env Sc (st_stack s)).
     set (ss := st_stores s) in *. destruct Hss as (Hp & Ha & Hy).
+    set (mk := fun c => match s_kind Sc with
+                        | KSub => update (update (update [] (own Sc (own_names Sc c)))
+                                    (match find_unit_env (st_units s) (s_host Sc) with Some E => tab ss E c | None => [] end))
+                                    (imports_of Sc c)
+                        | _ => update (update (match parent with Some E => tab ss E c | None => [] end)
+                                              (own Sc (own_names Sc c))) (imports_of Sc c)
+                        end).
     assert (Hmk : forall c, (forall i k e, In (k, e) (st_get i (store_of ss c)) -> P k) ->
-              forall k e, In (k, e) (update (update (match parent with Some E => tab ss E c | None => [] end)
-                                                    (own Sc (own_names Sc c))) (imports_of Sc c)) -> P k).
-    { intros c Hc. apply update_keys.
-      - apply update_keys.
-        + destruct parent as [E|]; [|intros k e []]. intros k e H. unfold tab in H. eapply Hc; eauto.
-        + intros k e H. apply (Hev c k e). apply in_app_iff. now left.
-      - intros k e H. apply (Hev c k e). apply in_app_iff. now right. }
-    assert (Hss' : stores_ok P
-              {| sp := st_set (st_next s) (update (update (match parent with Some E => tab ss E CProc | None => [] end)
-                                                          (own Sc (own_names Sc CProc))) (imports_of Sc CProc)) (sp ss);
-                 sa := st_set (st_next s) (update (update (match parent with Some E => tab ss E CAbs | None => [] end)
-                                                          (own Sc (own_names Sc CAbs))) (imports_of Sc CAbs)) (sa ss);
-                 sy := st_set (st_next s) (update (update (match parent with Some E => tab ss E CType | None => [] end)
-                                                          (own Sc (own_names Sc CType))) (imports_of Sc CType)) (sy ss) |}).
+                            forall k e, In (k, e) (mk c) -> P k).
+    { intros c Hc.
+      assert (Hown : forall k e, In (k, e) (own Sc (own_names Sc c)) -> P k).
+      { intros k e H. apply (Hev c k e). apply in_app_iff. now left. }
+      assert (Himp : forall k e, In (k, e) (imports_of Sc c) -> P k).
+      { intros k e H. apply (Hev c k e). apply in_app_iff. now right. }
+      assert (Htab : forall E k e, In (k, e) (tab ss E c) -> P k).
+      { intros E k e H. unfold tab in H. eapply Hc; eauto. }
+      unfold mk. destruct (s_kind Sc).
+      - apply update_keys; auto. apply update_keys; auto. destruct parent; [apply Htab | intros k e []].
+      - apply update_keys; auto. apply update_keys; auto. destruct parent; [apply Htab | intros k e []].
+      - apply update_keys; auto. apply update_keys; auto. destruct parent; [apply Htab | intros k e []].
+      - apply update_keys; auto. apply update_keys.
+        + apply update_keys; auto. intros k e [].
+        + destruct (find_unit_env (st_units s) (s_host Sc)); [apply Htab | intros k e []]. }
+    assert (Hss' : stores_ok P {| sp := st_set (st_next s) (mk CProc) (sp ss);
+                                  sa := st_set (st_next s) (mk CAbs) (sa ss);
+                                  sy := st_set (st_next s) (mk CType) (sy ss) |}).
     { repeat split; simpl; apply keys_ok_set; auto.
       - apply (Hmk CProc). exact Hp.
       - apply (Hmk CAbs). exact Ha.
@@ -266,15 +277,6 @@ Fixpoint stack_look (f : srec -> option ent) (l : list srec) : option ent :=
   | [] => None
   | Sc :: r => match f Sc with Some e => Some e | None => stack_look f r end
   end.
-Fixpoint chain (l : list srec) : Prop :=
-  match l with
-  | [] => True
-  | Sc :: r => match r with
-               | [] => length (s_path Sc) = 1
-               | H :: _ => removelast (s_path Sc) = s_path H /\ s_path Sc <> []
-               end /\ chain r
-  end.
-
 Lemma find_scope_unique all Sc :
   NoDup (map s_path all) -> In Sc all -> find_scope all (s_path Sc) = Some Sc.
 Proof.
@@ -290,39 +292,6 @@ Proof.
   destruct (list_eqb str_eqb (s_path X) []) eqn:E.
   - apply path_eqb_eq in E. exfalso. apply (H X); auto.
   - apply IH. intros Sc HS. apply H. now right.
-Qed.
-
-Lemma resolve_fuel_stack all (f : srec -> option ent) :
-  NoDup (map s_path all) -> (forall Sc, In Sc all -> s_path Sc <> []) ->
-  forall l, chain l -> (forall Sc, In Sc l -> In Sc all) ->
-  forall Sc r, l = Sc :: r -> forall fuel, length (s_path Sc) <= fuel ->
-  resolve_fuel fuel all (s_path Sc) f = stack_look f l.
-Proof.
-  intros ND NE. induction l as [|X l IH]; intros Hc Hin Sc r El fuel Hf; [discriminate|].
-  injection El as -> ->. destruct Hc as [Hx Hc].
-  assert (HX : In Sc all) by (apply Hin; now left).
-  destruct fuel as [|fuel].
-  { exfalso. specialize (NE Sc HX). destruct (s_path Sc); simpl in *; [congruence | lia]. }
-  simpl. rewrite (find_scope_unique all Sc ND HX). destruct (f Sc) eqn:Ef; auto.
-  destruct (s_path Sc) as [|x p] eqn:Ep; [exfalso; now apply (NE Sc HX)|].
-  destruct r as [|H r'].
-  - (* the unit: its path has one name *)
-    simpl in Hx. injection Hx as Hp. destruct p; [|discriminate]. simpl.
-    destruct fuel; simpl; auto. rewrite (find_scope_nil all NE). reflexivity.
-  - destruct Hx as [Hrm _]. rewrite Hrm.
-    apply (IH Hc (fun S0 HS0 => Hin S0 (or_intror HS0)) H r' eq_refl).
-    rewrite <- Hrm. assert (length (removelast (x :: p)) = length p).
-    { clear. revert x. induction p as [|y p IHp]; intros x; simpl; auto. simpl in IHp. now rewrite IHp. }
-    rewrite H0. simpl in Hf. lia.
-Qed.
-
-Lemma spec_resolver_stack all l Sc r lk n :
-  NoDup (map s_path all) -> (forall S0, In S0 all -> s_path S0 <> []) ->
-  chain l -> (forall S0, In S0 l -> In S0 all) -> l = Sc :: r ->
-  spec_resolver all (s_path Sc) lk n = stack_look (fun S0 => look_in S0 lk n) l.
-Proof.
-  intros ND NE Hc Hin El. unfold spec_resolver.
-  apply (resolve_fuel_stack all _ ND NE l Hc Hin Sc r El). lia.
 Qed.
 
 Lemma stack_look_in (f : srec -> option ent) l e :
@@ -342,10 +311,98 @@ Qed.
 
 
 (* ---- the table of a scope as a function of its host chain (innermost scope first) *)
+(* ---- host chains: the scopes a name is looked up in, innermost first; a submodule continues
+   with its parent submodule / ancestor module *)
+Fixpoint gchain (all : list srec) (l : list srec) : Prop :=
+  match l with
+  | [] => True
+  | Sc :: r => s_path Sc <> [] /\
+               next_path all (s_path Sc) = match r with [] => [] | H :: _ => s_path H end /\
+               gchain all r
+  end.
+Lemma gchain_app_r all a b : gchain all (a ++ b) -> gchain all b.
+Proof. induction a as [|x a IH]; simpl; auto. intros (_ & _ & H). auto. Qed.
+
+Lemma resolve_fuel_stack all (f : srec -> option ent) :
+  NoDup (map s_path all) -> (forall Sc, In Sc all -> s_path Sc <> []) ->
+  forall l, gchain all l -> (forall Sc, In Sc l -> In Sc all) ->
+  forall Sc r, l = Sc :: r -> forall fuel, length l <= fuel ->
+  resolve_fuel fuel all (s_path Sc) f = stack_look f l.
+Proof.
+  intros ND NE. induction l as [|X l IH]; intros Hc Hin Sc r El fuel Hf; [discriminate|].
+  injection El as -> ->. destruct Hc as (Hne & Hnext & Hc).
+  assert (HX : In Sc all) by (apply Hin; now left).
+  destruct fuel as [|fuel]; [simpl in Hf; lia|].
+  simpl. rewrite (find_scope_unique all Sc ND HX). destruct (f Sc) eqn:Ef; auto.
+  destruct (s_path Sc) as [|x p] eqn:Ep; [congruence|]. rewrite Hnext.
+  destruct r as [|H r'].
+  - simpl. destruct fuel; simpl; auto. rewrite (find_scope_nil all NE). reflexivity.
+  - apply (IH Hc (fun S0 HS0 => Hin S0 (or_intror HS0)) H r' eq_refl). simpl in *. lia.
+Qed.
+
+Lemma spec_resolver_stack all l Sc r lk n :
+  NoDup (map s_path all) -> (forall S0, In S0 all -> s_path S0 <> []) ->
+  gchain all l -> (forall S0, In S0 l -> In S0 all) -> l = Sc :: r -> length l <= length all ->
+  spec_resolver all (s_path Sc) lk n = stack_look (fun S0 => look_in S0 lk n) l.
+Proof.
+  intros ND NE Hc Hin El Hlen. unfold spec_resolver.
+  apply (resolve_fuel_stack all _ ND NE l Hc Hin Sc r El). lia.
+Qed.
+
+(* ---- the table of a scope as a function of its host chain *)
 Fixpoint tabf (c : cls) (hosts : list srec) : table :=
   match hosts with
   | [] => []
-  | Sc :: r => update (update (tabf c r) (own Sc (own_names Sc c))) (imports_of Sc c)
+  | Sc :: r =>
+    match s_kind Sc with
+    | KSub => update (update (update [] (own Sc (own_names Sc c))) (tabf c r)) (imports_of Sc c)
+    | _ => update (update (tabf c r) (own Sc (own_names Sc c))) (imports_of Sc c)
+    end
+  end.
+
+Lemma keys_set (k : str) (v : ent) t : forall x, In x (map fst (assoc_set k v t)) <-> x = k \/ In x (map fst t).
+Proof.
+  induction t as [|[k' v'] t IH]; simpl; intros x.
+  - intuition congruence.
+  - destruct (str_eqb k k') eqn:E; simpl.
+    + apply str_eqb_eq in E. subst. intuition congruence.
+    + rewrite IH. intuition congruence.
+Qed.
+Lemma nodup_set (k : str) (v : ent) t : NoDup (map fst t) -> NoDup (map fst (assoc_set k v t)).
+Proof.
+  induction t as [|[k' v'] t IH]; simpl; intros ND.
+  - constructor; [tauto | constructor].
+  - destruct (str_eqb k k') eqn:E; simpl.
+    + apply str_eqb_eq in E. now subst.
+    + inversion ND as [|? ? Hn ND']; subst. constructor; auto.
+      rewrite keys_set. intros [H|H]; auto. subst. now rewrite str_eqb_refl in E.
+Qed.
+Lemma nodup_update (t l : table) : NoDup (map fst t) -> NoDup (map fst (update t l)).
+Proof.
+  revert t. induction l as [|kv l IH]; intros t ND; [exact ND|].
+  rewrite update_cons. apply IH. now apply nodup_set.
+Qed.
+Lemma In_get_nodup (k : str) (v : ent) t : NoDup (map fst t) -> In (k, v) t -> assoc_get k t = Some v.
+Proof.
+  induction t as [|[k' v'] t IH]; simpl; [tauto|].
+  intros ND [H|H].
+  - injection H as -> ->. now rewrite str_eqb_refl.
+  - inversion ND as [|? ? Hn ND']; subst. destruct (str_eqb k k') eqn:E.
+    + apply str_eqb_eq in E. subst k'. exfalso. apply Hn. now apply (in_map fst) in H.
+    + auto.
+Qed.
+Lemma tabf_nodup c l : NoDup (map fst (tabf c l)).
+Proof.
+  induction l as [|Sc r IH]; simpl; [constructor|].
+  destruct (s_kind Sc); repeat apply nodup_update; auto; constructor.
+Qed.
+
+(* a submodule's own declarations are not names of its host chain *)
+Fixpoint subs_ok (c : cls) (l : list srec) : Prop :=
+  match l with
+  | [] => True
+  | Sc :: r => (s_kind Sc = KSub -> forall n, In n (own_names Sc c) ->
+                stack_look (fun S0 => local_lookup S0 c n) r = None) /\ subs_ok c r
   end.
 
 Lemma scope_legal_facts Sc c :
@@ -371,23 +428,45 @@ Qed.
 
 (* the dictionary of a scope answers as Fortran's host association does, class by class *)
 Lemma tabf_get c hosts n :
-  (forall Sc, In Sc hosts -> scope_legal Sc = true) ->
+  (forall Sc, In Sc hosts -> scope_legal Sc = true) -> subs_ok c hosts ->
   assoc_get n (tabf c hosts) = stack_look (fun Sc => local_lookup Sc c n) hosts.
 Proof.
-  induction hosts as [|Sc r IH]; intros Hl; [reflexivity|]. simpl.
+  induction hosts as [|Sc r IH]; intros Hl Hsub; [reflexivity|]. simpl.
   destruct (scope_legal_facts Sc c (Hl Sc (or_introl eq_refl))) as [Hf Hd].
-  unfold local_lookup.
-  destruct (update_get_or n (update (tabf c r) (own Sc (own_names Sc c))) (imports_of Sc c)) as [(v & Hin & E)|(Hn & E)];
-    rewrite E.
-  - (* use-associated in Sc *)
-    assert (Hno : str_in n (own_names Sc c) = false).
-    { apply str_in_false. intros Ho. apply (Hd n Ho). now apply (in_map fst) in Hin. }
-    rewrite Hno. destruct (In_get_some _ _ _ Hin) as (v' & Ev'). rewrite Ev'. f_equal.
-    apply get_In in Ev'. apply (Hf n); assumption.
-  - rewrite own_get. destruct (str_in n (own_names Sc c)); auto.
-    assert (Eg : assoc_get n (imports_of Sc c) = None).
-    { destruct (assoc_get n (imports_of Sc c)) eqn:G; auto. apply get_In in G. now apply Hn in G. }
-    rewrite Eg. apply IH. intros S0 H0. apply Hl. now right.
+  destruct Hsub as [Hsub Hsubr].
+  assert (IHr : assoc_get n (tabf c r) = stack_look (fun S0 => local_lookup S0 c n) r).
+  { apply IH; auto. intros S0 H0. apply Hl. now right. }
+  assert (Himp : forall T : table,
+            (exists v, In (n, v) (imports_of Sc c) /\ assoc_get n (update T (imports_of Sc c)) = Some v /\
+                       local_lookup Sc c n = Some v) \/
+            ((forall v, ~ In (n, v) (imports_of Sc c)) /\ assoc_get n (update T (imports_of Sc c)) = assoc_get n T /\
+             assoc_get n (imports_of Sc c) = None)).
+  { intros T. destruct (update_get_or n T (imports_of Sc c)) as [(v & Hin & E)|(Hn & E)].
+    - left. exists v. repeat split; auto. unfold local_lookup.
+      assert (Hno : str_in n (own_names Sc c) = false).
+      { apply str_in_false. intros Ho. apply (Hd n Ho). now apply (in_map fst) in Hin. }
+      rewrite Hno. destruct (In_get_some _ _ _ Hin) as (v' & Ev'). rewrite Ev'. f_equal.
+      apply get_In in Ev'. apply (Hf n); assumption.
+    - right. repeat split; auto. destruct (assoc_get n (imports_of Sc c)) eqn:G; auto.
+      apply get_In in G. now apply Hn in G. }
+  destruct (s_kind Sc) eqn:Ek.
+  1-3: (destruct (Himp (update (tabf c r) (own Sc (own_names Sc c)))) as [(v & _ & E & El)|(_ & E & Eg)]; rewrite E;
+        [now rewrite El|]; rewrite own_get; unfold local_lookup; rewrite Eg;
+        destruct (str_in n (own_names Sc c)); auto).
+  (* a submodule: own declarations, then the host's table over them, then the imports *)
+  destruct (Himp (update (update [] (own Sc (own_names Sc c))) (tabf c r))) as [(v & _ & E & El)|(_ & E & Eg)]; rewrite E;
+    [now rewrite El|].
+  assert (Ell : local_lookup Sc c n = if str_in n (own_names Sc c) then Some (s_path Sc ++ [n]) else None).
+  { unfold local_lookup. rewrite Eg. reflexivity. }
+  rewrite Ell.
+  destruct (update_get_or n (update [] (own Sc (own_names Sc c))) (tabf c r)) as [(v & Hin & E')|(Hn & E')]; rewrite E'.
+  - apply (In_get_nodup _ _ _ (tabf_nodup c r)) in Hin. rewrite IHr in Hin.
+    destruct (str_in n (own_names Sc c)) eqn:Eo; [|now rewrite Hin].
+    apply str_in_In in Eo. rewrite (Hsub eq_refl n Eo) in Hin. discriminate.
+  - rewrite own_get. simpl.
+    assert (En : assoc_get n (tabf c r) = None).
+    { destruct (assoc_get n (tabf c r)) eqn:G; auto. apply get_In in G. now apply Hn in G. }
+    rewrite IHr in En. rewrite En. destruct (str_in n (own_names Sc c)); reflexivity.
 Qed.
 
 (* ---- the invariant of the traversal *)
@@ -397,77 +476,198 @@ Lemma enter_stack Sc s : st_stack (enter_scope Sc s) = new_env Sc s :: st_stack 
 Proof. reflexivity. Qed.
 Lemma enter_next Sc s : st_next (enter_scope Sc s) = S (st_next s).
 Proof. reflexivity. Qed.
+Lemma enter_units Sc s : st_units (enter_scope Sc s) = st_units s.
+Proof. reflexivity. Qed.
 
-Record Inv (all : list srec) (s : state) : Prop := {
-  inv_in : forall E, In E (st_stack s) -> In (e_scope E) all;
-  inv_chain : chain (map e_scope (st_stack s));
+Definition ids_below (E : env) (n : nat) : Prop := e_procs E < n /\ e_abs E < n /\ e_types E < n.
+(* a finished unit: its host chain l (the unit itself first) and its settled dictionaries *)
+Definition unit_ok (all : list srec) (bound : nat) (s : state) (p : list str) (E : env) : Prop :=
+  s_path (e_scope E) = p /\ ids_below E (st_next s) /\
+  exists l, (forall S0, In S0 (e_scope E :: l) -> In S0 all) /\ gchain all (e_scope E :: l) /\
+            (forall c, tab (st_stores s) E c = tabf c (e_scope E :: l)) /\ length (e_scope E :: l) <= bound.
+
+Record Inv (all : list srec) (bound : nat) (hc : list srec) (s : state) : Prop := {
+  inv_in : forall S0, In S0 (map e_scope (st_stack s) ++ hc) -> In S0 all;
+  inv_chain : gchain all (map e_scope (st_stack s) ++ hc);
+  inv_len : length (map e_scope (st_stack s) ++ hc) <= bound;
   inv_tab : forall pre E post c, st_stack s = pre ++ E :: post ->
-            tab (st_stores s) E c = tabf c (map e_scope (E :: post));
-  inv_ids : forall E, In E (st_stack s) ->
-            e_procs E < st_next s /\ e_abs E < st_next s /\ e_types E < st_next s }.
+            tab (st_stores s) E c = tabf c (map e_scope (E :: post) ++ hc);
+  inv_ids : forall E, In E (st_stack s) -> ids_below E (st_next s);
+  inv_units : forall p E, find_unit_env (st_units s) p = Some E -> unit_ok all bound s p E }.
 
-Definition enter_ok (Sc : srec) (s : state) : Prop :=
-  (st_stack s = [] /\ s_kind Sc = KUnit /\ length (s_path Sc) = 1) \/
-  (exists E0 rest, st_stack s = E0 :: rest /\ s_kind Sc <> KUnit /\
-                   removelast (s_path Sc) = s_path (e_scope E0) /\ s_path Sc <> []).
-
-Lemma parent_env_cases Sc s :
-  enter_ok Sc s ->
-  (parent_env Sc (st_stack s) = None /\ st_stack s = []) \/
-  (exists E0 rest, parent_env Sc (st_stack s) = Some E0 /\ st_stack s = E0 :: rest).
+Lemma unit_ok_mono all b b' s s' p E :
+  b <= b' -> st_next s <= st_next s' ->
+  (forall c, tab (st_stores s') E c = tab (st_stores s) E c) ->
+  unit_ok all b s p E -> unit_ok all b' s' p E.
 Proof.
-  intros [(Hs & Hk & _)|(E0 & rest & Hs & Hk & _)]; unfold parent_env; rewrite Hs.
-  - left. rewrite Hk. auto.
-  - right. exists E0, rest. split; auto. destruct (s_kind Sc); congruence.
+  intros Hb Hn Ht (Hp & (I1 & I2 & I3) & l & Hin & Hg & Htab & Hlen).
+  split; auto. split; [unfold ids_below; lia|]. exists l.
+  split; [exact Hin|]. split; [exact Hg|]. split; [|lia].
+  intros c. rewrite (Ht c). apply Htab.
 Qed.
 
-Lemma init_inv all : Inv all init_state.
-Proof.
-  constructor; simpl; try tauto. intros pre E post c H. destruct pre; discriminate.
-Qed.
-
-Lemma enter_tab_new Sc s c :
-  tab (st_stores (enter_scope Sc s)) (new_env Sc s) c
-  = update (update (match parent_env Sc (st_stack s) with Some E => tab (st_stores s) E c | None => [] end)
-                   (own Sc (own_names Sc c))) (imports_of Sc c).
-Proof. unfold tab, enter_scope, new_env. destruct c; simpl; now rewrite st_get_set_same. Qed.
 Lemma enter_tab_old Sc s E c :
-  e_procs E < st_next s -> e_abs E < st_next s -> e_types E < st_next s ->
+  ids_below E (st_next s) ->
   tab (st_stores (enter_scope Sc s)) E c = tab (st_stores s) E c.
 Proof.
-  intros Hp Ha Hy. unfold tab, enter_scope. destruct c; simpl; apply st_get_set_other; lia.
+  intros (Hp & Ha & Hy). unfold tab, enter_scope. destruct c; simpl; apply st_get_set_other; lia.
+Qed.
+Lemma enter_tab_new Sc s c :
+  tab (st_stores (enter_scope Sc s)) (new_env Sc s) c
+  = match s_kind Sc with
+    | KSub => update (update (update [] (own Sc (own_names Sc c)))
+                             (match find_unit_env (st_units s) (s_host Sc) with
+                              | Some E => tab (st_stores s) E c | None => [] end)) (imports_of Sc c)
+    | _ => update (update (match parent_env Sc (st_stack s) with Some E => tab (st_stores s) E c | None => [] end)
+                          (own Sc (own_names Sc c))) (imports_of Sc c)
+    end.
+Proof. unfold tab, enter_scope, new_env. destruct c; simpl; now rewrite st_get_set_same. Qed.
+
+Lemma find_unit_env_key units p :
+  existsb (list_eqb str_eqb p) (map fst units) = true -> exists E, find_unit_env units p = Some E.
+Proof.
+  induction units as [|[q E] us IH]; simpl; [discriminate|].
+  destruct (list_eqb str_eqb q p) eqn:E1; [eauto|].
+  destruct (list_eqb str_eqb p q) eqn:E2.
+  - apply path_eqb_eq in E2. subst. rewrite (proj2 (path_eqb_eq q q) eq_refl) in E1. discriminate.
+  - simpl. exact IH.
+Qed.
+Lemma find_unit_env_app units p E q :
+  find_unit_env (units ++ [(p, E)]) q
+  = match find_unit_env units q with
+    | Some x => Some x
+    | None => if list_eqb str_eqb p q then Some E else None
+    end.
+Proof.
+  induction units as [|[p' E'] us IH]; simpl; [reflexivity|].
+  destruct (list_eqb str_eqb p' q); auto.
 Qed.
 
-Lemma inv_enter all Sc s : Inv all s -> In Sc all -> enter_ok Sc s -> Inv all (enter_scope Sc s).
+(* entering a scope; the host chain hc' of the new stack *)
+Definition enter_ok (all : list srec) (Sc : srec) (s : state) : Prop :=
+  find_scope all (s_path Sc) = Some Sc /\
+  ((st_stack s = [] /\ s_kind Sc = KUnit /\ length (s_path Sc) = 1 /\ s_host Sc = []) \/
+   (st_stack s = [] /\ s_kind Sc = KSub /\ length (s_path Sc) = 1 /\
+    (s_host Sc = [] \/ existsb (list_eqb str_eqb (s_host Sc)) (map fst (st_units s)) = true)) \/
+   (exists E0 rest, st_stack s = E0 :: rest /\ (s_kind Sc = KProc \/ s_kind Sc = KBody) /\
+                    removelast (s_path Sc) = s_path (e_scope E0) /\ s_path Sc <> [] /\ s_host Sc = [])).
+
+Lemma next_path_of all Sc :
+  find_scope all (s_path Sc) = Some Sc ->
+  next_path all (s_path Sc) = match s_host Sc with [] => removelast (s_path Sc) | h => h end.
+Proof. intros H. unfold next_path. now rewrite H. Qed.
+
+Lemma path_len1 (p : list str) : length p = 1 -> p <> [] /\ removelast p = [].
+Proof. destruct p as [|x [|y p]]; simpl; intros H; try discriminate. split; [discriminate | reflexivity]. Qed.
+
+Lemma inv_enter all bound hc Sc s :
+  (forall S0, In S0 all -> s_path S0 <> []) ->
+  Inv all bound hc s -> In Sc all -> enter_ok all Sc s ->
+  exists hc', Inv all (S bound) hc' (enter_scope Sc s).
 Proof.
-  intros [Iin Ich Itab Iid] HSc Hok.
-  pose proof (parent_env_cases Sc s Hok) as Hpar.
-  constructor.
-  - rewrite enter_stack. intros E [<-|H]; auto.
-  - rewrite enter_stack. simpl. split; [|exact Ich].
-    destruct Hok as [(Hs & _ & Hl)|(E0 & rest & Hs & _ & Hr & Hn)]; rewrite Hs; simpl; auto.
-  - rewrite enter_stack. intros pre E post c Hst. destruct pre as [|X pre]; simpl in Hst; injection Hst as <- Hst.
-    + subst post. rewrite enter_tab_new. simpl. f_equal. f_equal.
-      destruct Hpar as [[Hp Hs]|(E0 & rest & Hp & Hs)]; rewrite Hp, Hs.
-      * reflexivity.
-      * apply (Itab [] E0 rest c). exact Hs.
-    + assert (HE : In E (st_stack s)) by (rewrite Hst; apply in_app_iff; right; now left).
-      destruct (Iid E HE) as (Hp & Ha & Hy). rewrite enter_tab_old by assumption.
-      now apply (Itab pre E post c).
-  - rewrite enter_stack, enter_next. intros E [<-|H].
-    + simpl. lia.
-    + destruct (Iid E H) as (Hp & Ha & Hy). lia.
+  intros NE [Iin Ich Ilen Itab Iid Iun] HSc [Hfind Hok].
+  assert (Hunits : forall p E, find_unit_env (st_units (enter_scope Sc s)) p = Some E ->
+                               unit_ok all (S bound) (enter_scope Sc s) p E).
+  { intros p E H. rewrite enter_units in H. specialize (Iun p E H).
+    apply (unit_ok_mono all bound (S bound) s); auto.
+    - rewrite enter_next. lia.
+    - intros c. apply enter_tab_old. now destruct Iun as (_ & Hid & _). }
+  assert (Hids : forall E, In E (st_stack (enter_scope Sc s)) -> ids_below E (st_next (enter_scope Sc s))).
+  { rewrite enter_stack, enter_next. intros E [<-|H]; unfold ids_below.
+    - simpl. lia.
+    - destruct (Iid E H) as (A & B & C). lia. }
+  destruct Hok as [(Hs & Hk & Hl & Hh)|[(Hs & Hk & Hl & Hh)|(E0 & rest & Hs & Hk & Hr & Hn & Hh)]].
+  - (* a unit on the empty stack *)
+    destruct (path_len1 _ Hl) as [Hne Hrm].
+    exists []. constructor; auto.
+    + rewrite enter_stack, Hs. simpl. intros S0 [<-|[]]. exact HSc.
+    + rewrite enter_stack, Hs. simpl. repeat split; auto. rewrite (next_path_of all Sc Hfind), Hh. exact Hrm.
+    + rewrite enter_stack, Hs. simpl. lia.
+    + rewrite enter_stack, Hs. intros pre E post c Hst. destruct pre as [|X pre]; simpl in Hst.
+      * injection Hst as <- <-. rewrite enter_tab_new, Hk. unfold parent_env. rewrite Hk. simpl. rewrite Hk. reflexivity.
+      * injection Hst as _ Hst. destruct pre; discriminate.
+  - (* a submodule on the empty stack *)
+    destruct (path_len1 _ Hl) as [Hne Hrm].
+    assert (Hnounit : find_unit_env (st_units s) [] = None).
+    { destruct (find_unit_env (st_units s) []) as [E|] eqn:G; auto.
+      destruct (Iun [] E G) as (Hp & _ & l & Hin & _). exfalso. apply (NE (e_scope E)); auto. apply Hin. now left. }
+    destruct Hh as [Hh|Hh].
+    + exists []. constructor; auto.
+      * rewrite enter_stack, Hs. simpl. intros S0 [<-|[]]. exact HSc.
+      * rewrite enter_stack, Hs. simpl. repeat split; auto. rewrite (next_path_of all Sc Hfind), Hh. exact Hrm.
+      * rewrite enter_stack, Hs. simpl. lia.
+      * rewrite enter_stack, Hs. intros pre E post c Hst. destruct pre as [|X pre]; simpl in Hst.
+        -- injection Hst as <- <-. rewrite enter_tab_new, Hk, Hh, Hnounit. simpl. rewrite Hk. reflexivity.
+        -- injection Hst as _ Hst. destruct pre; discriminate.
+    + destruct (find_unit_env_key _ _ Hh) as (Eh & Efind).
+      destruct (Iun _ _ Efind) as (Hp & Hidh & l & Hin & Hg & Htab & Hlen).
+      assert (Hhne : s_host Sc <> []).
+      { intros H0. rewrite H0 in Efind. congruence. }
+      exists (e_scope Eh :: l). constructor; auto.
+      * rewrite enter_stack, Hs. simpl. intros S0 [<-|H]; auto.
+      * rewrite enter_stack, Hs. simpl. split; [exact Hne|]. split; [|exact Hg].
+        rewrite (next_path_of all Sc Hfind). destruct (s_host Sc) eqn:Eh'; [congruence|]. now rewrite Hp.
+      * rewrite enter_stack, Hs. simpl. simpl in Hlen. lia.
+      * rewrite enter_stack, Hs. intros pre E post c Hst. destruct pre as [|X pre]; simpl in Hst.
+        -- injection Hst as <- <-. rewrite enter_tab_new, Hk, Efind. simpl. rewrite Hk. now rewrite Htab.
+        -- injection Hst as _ Hst. destruct pre; discriminate.
+  - (* a scope inside its host *)
+    assert (Hpar : parent_env Sc (st_stack s) = Some E0).
+    { unfold parent_env. rewrite Hs. destruct Hk as [-> | ->]; reflexivity. }
+    assert (Hknd : s_kind Sc <> KSub) by (destruct Hk as [-> | ->]; discriminate).
+    exists hc. constructor; auto.
+    + rewrite enter_stack. simpl. intros S0 [<-|H]; auto.
+    + rewrite enter_stack. simpl. split; [exact Hn|]. split; [|exact Ich].
+      rewrite (next_path_of all Sc Hfind), Hh, Hr, Hs. reflexivity.
+    + rewrite enter_stack. simpl. lia.
+    + rewrite enter_stack. intros pre E post c Hst. destruct pre as [|X pre]; simpl in Hst; injection Hst as <- Hst.
+      * subst post. rewrite enter_tab_new, Hpar. simpl.
+        rewrite (Itab [] E0 rest c Hs). rewrite Hs. simpl.
+        destruct (s_kind Sc); try reflexivity. congruence.
+      * assert (HE : In E (st_stack s)) by (rewrite Hst; apply in_app_iff; right; now left).
+        rewrite enter_tab_old by (now apply Iid). now apply (Itab pre E post c).
 Qed.
 
-Lemma inv_exit all s : Inv all s -> Inv all (exit_scope s).
+Lemma inv_exit all bound hc s :
+  Inv all bound hc s -> exists hc', Inv all bound hc' (exit_scope s).
 Proof.
-  intros HI. unfold exit_scope. destruct (st_stack s) as [|E rest] eqn:Hs; [exact HI|].
-  destruct HI as [Iin Ich Itab Iid]. rewrite Hs in *.
-  constructor; simpl.
-  - intros E' H. apply Iin. now right.
-  - simpl in Ich. tauto.
-  - intros pre E' post c Hst. apply (Itab (E :: pre) E' post c). now rewrite Hst.
-  - intros E' H. apply Iid. now right.
+  intros HI. unfold exit_scope. destruct (st_stack s) as [|E rest] eqn:Hs; [exists hc; exact HI|].
+  destruct HI as [Iin Ich Ilen Itab Iid Iun]. rewrite Hs in *.
+  assert (Hunit_old : forall p E', find_unit_env (st_units s) p = Some E' ->
+            unit_ok all bound {| st_stores := st_stores s; st_next := st_next s; st_stack := rest;
+                                 st_out := st_out s ++ map (answer (model_resolver (st_stores s) E)) (exit_reqs (e_scope E));
+                                 st_units := match rest with [] => st_units s ++ [(s_path (e_scope E), E)] | _ => st_units s end |}
+                    p E').
+  { intros p E' H. apply (unit_ok_mono all bound bound s); auto. }
+  destruct rest as [|E1 rest'].
+  - (* a unit is finished: it is registered with its chain *)
+    exists []. constructor; simpl.
+    + tauto.
+    + exact I.
+    + lia.
+    + intros pre E' post c H. destruct pre; discriminate.
+    + tauto.
+    + intros p E' H. rewrite find_unit_env_app in H.
+      destruct (find_unit_env (st_units s) p) eqn:G.
+      * injection H as <-. now apply Hunit_old.
+      * destruct (list_eqb str_eqb (s_path (e_scope E)) p) eqn:Ep; [|discriminate]. injection H as <-.
+        apply path_eqb_eq in Ep. split; [exact Ep|]. split; [apply Iid; now left|].
+        exists hc. split; [exact Iin|]. split; [exact Ich|]. split; [|exact Ilen].
+        intros c. apply (Itab [] E [] c eq_refl).
+  - exists hc. constructor; simpl.
+    + intros S0 H. apply Iin. simpl. now right.
+    + simpl in Ich. tauto.
+    + simpl in Ilen. lia.
+    + intros pre E' post c Hst. apply (Itab (E :: pre) E' post c). simpl. now rewrite Hst.
+    + intros E' H. apply Iid. now right.
+    + exact Hunit_old.
+Qed.
+
+Lemma init_inv all : Inv all 0 [] init_state.
+Proof.
+  constructor; simpl; auto; try tauto.
+  - intros pre E post c H. destruct pre; discriminate.
+  - intros p E H. discriminate.
 Qed.
 
 (* ---- the answers *)
@@ -476,25 +676,61 @@ Lemma look_in_class lk c n :
   forall hosts, stack_look (fun Sc => look_in Sc lk n) hosts = stack_look (fun Sc => local_lookup Sc c n) hosts.
 Proof. intros H hosts. destruct lk, c; try tauto; reflexivity. Qed.
 
-Lemma answers_agree all s E rest reqs :
+Definition cls_look (c : cls) : look := match c with CType => LType | CProc => LProc | CAbs => LAbs end.
+Lemma cls_look_in c n l :
+  stack_look (fun S0 => look_in S0 (cls_look c) n) l = stack_look (fun S0 => local_lookup S0 c n) l.
+Proof. destruct c; reflexivity. Qed.
+
+(* from the decidable region predicate to the chain form *)
+Definition sub_free (all : list srec) : Prop :=
+  forall Sc c n, In Sc all -> s_kind Sc = KSub -> In n (own_names Sc c) ->
+  spec_resolver all (s_host Sc) (cls_look c) n = None.
+Lemma subs_ok_of all c l :
+  NoDup (map s_path all) -> (forall S0, In S0 all -> s_path S0 <> []) -> sub_free all ->
+  (forall S0, In S0 all -> s_kind S0 = KSub -> length (s_path S0) = 1) ->
+  gchain all l -> (forall S0, In S0 l -> In S0 all) -> length l <= length all ->
+  subs_ok c l.
+Proof.
+  intros ND NE SF Hsub1. induction l as [|Sc r IH]; intros Hg Hin Hlen; simpl; auto.
+  destruct Hg as (Hne & Hnext & Hg). split.
+  - intros Hk n Hn. destruct r as [|H r']; [reflexivity|].
+    pose proof (SF Sc c n (Hin Sc (or_introl eq_refl)) Hk Hn) as Hs.
+    rewrite (next_path_of all Sc (find_scope_unique all Sc ND (Hin Sc (or_introl eq_refl)))) in Hnext.
+    assert (Hh : s_host Sc = s_path H).
+    { destruct (s_host Sc) eqn:Eh; [|exact Hnext].
+      (* no host recorded: a submodule is a unit, its path has one name, the chain ends *)
+      exfalso. destruct (path_len1 _ (Hsub1 Sc (Hin Sc (or_introl eq_refl)) Hk)) as [_ Hrm].
+      rewrite Hrm in Hnext. apply (NE H); [apply Hin; right; now left | now symmetry]. }
+    rewrite Hh in Hs. rewrite <- (cls_look_in c n (H :: r')).
+    rewrite <- Hs. symmetry.
+    apply (spec_resolver_stack all (H :: r') H r'); auto.
+    + intros S0 HS0. apply Hin. now right.
+    + simpl in *. lia.
+  - apply IH; auto.
+    + intros S0 HS0. apply Hin. now right.
+    + simpl in Hlen. lia.
+Qed.
+
+Lemma answers_agree all bound hc s E rest reqs :
   NoDup (map s_path all) -> (forall S0, In S0 all -> s_path S0 <> []) ->
-  (forall S0, In S0 all -> scope_legal S0 = true) ->
-  Inv all s -> st_stack s = E :: rest ->
+  (forall S0, In S0 all -> scope_legal S0 = true) -> sub_free all ->
+  (forall S0, In S0 all -> s_kind S0 = KSub -> length (s_path S0) = 1) ->
+  Inv all bound hc s -> bound <= length all -> st_stack s = E :: rest ->
   map (answer (model_resolver (st_stores s) E)) reqs
   = map (answer (procs_first (spec_resolver all (s_path (e_scope E))))) reqs.
 Proof.
-  intros ND NE LG [Iin Ich Itab Iid] Hs. apply map_ext_in. intros q _.
-  unfold answer. f_equal.
-  set (hosts := map e_scope (E :: rest)).
-  assert (Hhosts : forall S0, In S0 hosts -> In S0 all).
-  { intros S0 H. apply in_map_iff in H as (E' & <- & H). apply Iin. now rewrite Hs. }
-  assert (Hleg : forall S0, In S0 hosts -> scope_legal S0 = true) by (intros S0 H; apply LG; auto).
+  intros ND NE LG SF Hsub1 [Iin Ich Ilen Itab Iid Iun] Hb Hs. apply map_ext_in. intros q _.
+  unfold answer. f_equal. rewrite Hs in *.
+  set (l := map e_scope (E :: rest) ++ hc) in *.
+  assert (Hl : l = e_scope E :: (map e_scope rest ++ hc)) by reflexivity.
+  assert (Hlen : length l <= length all) by lia.
+  assert (Hleg : forall S0, In S0 l -> scope_legal S0 = true) by (intros S0 H; apply LG; auto).
   assert (Hspec : forall lk n, spec_resolver all (s_path (e_scope E)) lk n
-                               = stack_look (fun S0 => look_in S0 lk n) hosts).
-  { intros lk n. apply (spec_resolver_stack all hosts (e_scope E) (map e_scope rest)); auto.
-    unfold hosts. rewrite <- Hs. exact Ich. }
-  assert (Htab : forall c n, assoc_get n (tab (st_stores s) E c) = stack_look (fun S0 => local_lookup S0 c n) hosts).
-  { intros c n. rewrite (Itab [] E rest c Hs). now apply tabf_get. }
+                               = stack_look (fun S0 => look_in S0 lk n) l).
+  { intros lk n. apply (spec_resolver_stack all l (e_scope E) (map e_scope rest ++ hc)); auto. }
+  assert (Htab : forall c n, assoc_get n (tab (st_stores s) E c) = stack_look (fun S0 => local_lookup S0 c n) l).
+  { intros c n. rewrite (Itab [] E rest c eq_refl). apply tabf_get; auto.
+    apply (subs_ok_of all c l); auto. }
   unfold model_resolver, procs_first. destruct (q_look q).
   - rewrite Htab, Hspec. symmetry. now apply (look_in_class LType CType).
   - rewrite Htab, Hspec. symmetry. now apply (look_in_class LProc CProc).
@@ -509,49 +745,59 @@ Definition chunkX (all : list srec) (Sc : srec) : list res :=
 
 Lemma run_spec all :
   NoDup (map s_path all) -> (forall S0, In S0 all -> s_path S0 <> []) ->
-  (forall S0, In S0 all -> scope_legal S0 = true) ->
-  forall post s entered exited,
-  (forall Sc, In (Enter Sc) post -> In Sc all) ->
-  wf_ev (map (fun E => s_path (e_scope E)) (st_stack s)) post = true ->
-  Inv all s ->
+  (forall S0, In S0 all -> scope_legal S0 = true) -> sub_free all ->
+  (forall S0, In S0 all -> s_kind S0 = KSub -> length (s_path S0) = 1) ->
+  forall post s entered exited hc,
+  all = entered ++ scopes_of post ->
+  wf_ev (map fst (st_units s)) (map (fun E => s_path (e_scope E)) (st_stack s)) post = true ->
+  Inv all (length entered) hc s ->
   (forall S0, In S0 entered <-> In S0 exited \/ In S0 (map e_scope (st_stack s))) ->
   (forall r, In r (st_out s) <->
              (exists S0, In S0 entered /\ In r (chunkE all S0)) \/
              (exists S0, In S0 exited /\ In r (chunkX all S0))) ->
   forall r, In r (st_out (fold_left step post s)) <->
-            (exists S0, In S0 (entered ++ scopes_of post) /\ In r (chunkE all S0)) \/
-            (exists S0, In S0 (entered ++ scopes_of post) /\ In r (chunkX all S0)).
+            (exists S0, In S0 all /\ In r (chunkE all S0)) \/
+            (exists S0, In S0 all /\ In r (chunkX all S0)).
 Proof.
-  intros ND NE LG. induction post as [|ev post IH]; intros s entered exited Hall Hwf HI Hrel Hout r.
-  - simpl in *. destruct (st_stack s) eqn:Hs; [|discriminate]. simpl in Hwf.
-    rewrite app_nil_r. rewrite Hout. split; (intros [H|(S0 & H1 & H2)]; [now left|]); right; exists S0; split; auto.
+  intros ND NE LG SF Hsub1. induction post as [|ev post IH]; intros s entered exited hc Hall Hwf HI Hrel Hout r.
+  - simpl in *. rewrite app_nil_r in Hall. subst entered.
+    destruct (st_stack s) eqn:Hs; [|discriminate]. simpl in Hwf.
+    rewrite Hout. split; (intros [H|(S0 & H1 & H2)]; [now left|]); right; exists S0; split; auto.
     + apply Hrel. now left.
     + apply Hrel in H1 as [H1|[]]. exact H1.
   - destruct ev as [Sc|].
-    + assert (HSc : In Sc all) by (apply Hall; now left).
+    + assert (HSc : In Sc all) by (rewrite Hall; apply in_app_iff; right; now left).
       simpl in Hwf. apply andb_true_iff in Hwf as [Hcond Hwf].
-      assert (Hok : enter_ok Sc s).
-      { unfold enter_ok. destruct (st_stack s) as [|E0 rest] eqn:Hs; simpl in Hcond.
-        - left. destruct (s_kind Sc); try discriminate. apply Nat.eqb_eq in Hcond. auto.
-        - right. exists E0, rest. split; auto.
-          destruct (s_kind Sc); try discriminate; apply andb_true_iff in Hcond as [H1 H2];
-            apply path_eqb_eq in H1; apply negb_true_iff, Nat.eqb_neq in H2;
-            (repeat split; [discriminate | exact H1 | intros Hn; rewrite Hn in H2; simpl in H2; congruence]). }
-      pose proof (inv_enter all Sc s HI HSc Hok) as HI'.
-      simpl fold_left. simpl scopes_of.
-      replace (entered ++ Sc :: scopes_of post) with ((entered ++ [Sc]) ++ scopes_of post)
-        by (now rewrite <- app_assoc).
-      apply (IH (enter_scope Sc s) (entered ++ [Sc]) exited).
-      * intros S0 H. apply Hall. now right.
-      * rewrite enter_stack. simpl. exact Hwf.
-      * exact HI'.
+      assert (Hok : enter_ok all Sc s).
+      { split; [now apply find_scope_unique|].
+        destruct (st_stack s) as [|E0 rest] eqn:Hs; simpl in Hcond.
+        - destruct (s_kind Sc) eqn:Ek; try discriminate.
+          + left. apply andb_true_iff in Hcond as [H1 H2]. apply Nat.eqb_eq in H1, H2.
+            repeat split; auto. now destruct (s_host Sc).
+          + right. left. apply andb_true_iff in Hcond as [H1 H2]. apply Nat.eqb_eq in H1.
+            repeat split; auto. apply orb_true_iff in H2 as [H2|H2]; [left | now right].
+            apply Nat.eqb_eq in H2. now destruct (s_host Sc).
+        - right. right. exists E0, rest. split; auto.
+          destruct (s_kind Sc) eqn:Ek; try discriminate;
+            apply andb_true_iff in Hcond as [H12 H3]; apply andb_true_iff in H12 as [H1 H2];
+            apply path_eqb_eq in H1; apply negb_true_iff, Nat.eqb_neq in H2; apply Nat.eqb_eq in H3;
+            (repeat split; [auto | exact H1 | intros Hn; rewrite Hn in H2; simpl in H2; congruence
+                            | now destruct (s_host Sc)]). }
+      destruct (inv_enter all (length entered) hc Sc s NE HI HSc Hok) as (hc' & HI').
+      simpl fold_left.
+      assert (Hlen' : length (entered ++ [Sc]) = S (length entered)) by (rewrite app_length; simpl; lia).
+      apply (IH (enter_scope Sc s) (entered ++ [Sc]) exited hc').
+      * rewrite Hall. simpl. now rewrite <- app_assoc.
+      * rewrite enter_stack, enter_units. simpl. exact Hwf.
+      * rewrite Hlen'. exact HI'.
       * intros S0. rewrite enter_stack, in_app_iff. simpl. rewrite Hrel. intuition.
       * intros r0.
         assert (Hchunk : st_out (enter_scope Sc s) = st_out s ++ chunkE all Sc).
         { unfold chunkE. change (st_out (enter_scope Sc s))
             with (st_out s ++ map (answer (model_resolver (st_stores (enter_scope Sc s)) (new_env Sc s))) (enter_reqs Sc)).
           f_equal.
-          apply (answers_agree all (enter_scope Sc s) (new_env Sc s) (st_stack s)); auto. }
+          apply (answers_agree all (S (length entered)) hc' (enter_scope Sc s) (new_env Sc s) (st_stack s)); auto.
+          rewrite Hall, app_length. simpl. lia. }
         rewrite Hchunk, in_app_iff, Hout. split.
         -- intros [[(S0 & H1 & H2)|(S0 & H1 & H2)]|H].
            ++ left. exists S0. split; auto. apply in_app_iff. now left.
@@ -561,15 +807,23 @@ Proof.
            ++ apply in_app_iff in H1 as [H1|[<-|[]]]; [left; left; eauto | now right].
            ++ left. right. eauto.
     + simpl in Hwf. destruct (st_stack s) as [|E rest] eqn:Hs; simpl in Hwf; [discriminate|].
-      simpl fold_left. simpl scopes_of.
+      simpl fold_left.
+      assert (Hb : length entered <= length all) by (rewrite Hall, app_length; lia).
       assert (Hstep : exit_scope s = {| st_stores := st_stores s; st_next := st_next s; st_stack := rest;
-                                        st_out := st_out s ++ chunkX all (e_scope E) |}).
+                                        st_out := st_out s ++ chunkX all (e_scope E);
+                                        st_units := match rest with
+                                                    | [] => st_units s ++ [(s_path (e_scope E), E)]
+                                                    | _ => st_units s
+                                                    end |}).
       { unfold exit_scope. rewrite Hs. f_equal. f_equal. unfold chunkX.
-        apply (answers_agree all s E rest); auto. }
-      apply (IH (exit_scope s) entered (exited ++ [e_scope E])).
-      * intros S0 H. apply Hall. now right.
-      * rewrite Hstep. simpl. exact Hwf.
-      * now apply inv_exit.
+        apply (answers_agree all (length entered) hc s E rest); auto. }
+      destruct (inv_exit all (length entered) hc s HI) as (hc' & HI').
+      apply (IH (exit_scope s) entered (exited ++ [e_scope E]) hc').
+      * rewrite Hall. reflexivity.
+      * rewrite Hstep. simpl. destruct rest as [|E1 rest']; simpl in *.
+        -- rewrite map_app. simpl. exact Hwf.
+        -- exact Hwf.
+      * exact HI'.
       * intros S0. rewrite Hstep. simpl. rewrite Hrel, in_app_iff. simpl. intuition.
       * intros r0. rewrite Hstep. simpl. rewrite in_app_iff, Hout. split.
         -- intros [[H|(S0 & H1 & H2)]|H]; [now left | |].
@@ -587,16 +841,23 @@ Proof.
   { apply existsb_exists. exists p. split; auto. now apply path_eqb_eq. }
   congruence.
 Qed.
-Lemma wf_ev_nonempty stack evs Sc :
-  wf_ev stack evs = true -> In (Enter Sc) evs -> s_path Sc <> [].
+Lemma wf_ev_facts closed stack evs Sc :
+  wf_ev closed stack evs = true -> In (Enter Sc) evs ->
+  s_path Sc <> [] /\ (s_kind Sc = KSub -> length (s_path Sc) = 1).
 Proof.
-  revert stack. induction evs as [|ev evs IH]; intros stack Hwf Hin; [destruct Hin|].
+  revert closed stack. induction evs as [|ev evs IH]; intros closed stack Hwf Hin; [destruct Hin|].
   destruct ev as [X|]; simpl in Hwf.
   - apply andb_true_iff in Hwf as [Hc Hwf]. destruct Hin as [H|H]; [|eauto].
-    injection H as ->. intros Hn. rewrite Hn in Hc. simpl in Hc.
-    destruct stack, (s_kind Sc); simpl in Hc; try discriminate;
-      rewrite ?andb_false_r in Hc; discriminate.
-  - destruct Hin as [H|H]; [discriminate|]. destruct stack; [discriminate|]. eauto.
+    injection H as ->. destruct stack as [|p st], (s_kind Sc) eqn:Ek; simpl in Hc; try discriminate.
+    + apply andb_true_iff in Hc as [H1 _]. apply Nat.eqb_eq in H1. split; [|discriminate].
+      intros Hn. rewrite Hn in H1. discriminate.
+    + apply andb_true_iff in Hc as [H1 _]. apply Nat.eqb_eq in H1. split; auto.
+      intros Hn. rewrite Hn in H1. discriminate.
+    + apply andb_true_iff in Hc as [H12 _]. apply andb_true_iff in H12 as [_ H2].
+      apply negb_true_iff, Nat.eqb_neq in H2. split; [|discriminate]. intros Hn. rewrite Hn in H2. simpl in H2. congruence.
+    + apply andb_true_iff in Hc as [H12 _]. apply andb_true_iff in H12 as [_ H2].
+      apply negb_true_iff, Nat.eqb_neq in H2. split; [|discriminate]. intros Hn. rewrite Hn in H2. simpl in H2. congruence.
+  - destruct Hin as [H|H]; [discriminate|]. destruct stack as [|p [|q st]]; [discriminate | eauto | eauto].
 Qed.
 Lemma scopes_of_In evs Sc : In Sc (scopes_of evs) <-> In (Enter Sc) evs.
 Proof.
@@ -606,25 +867,37 @@ Proof.
 Qed.
 
 
+
+Lemma sub_free_of evs : sub_shadow_free evs = true -> sub_free (scopes_of evs).
+Proof.
+  unfold sub_shadow_free. rewrite forallb_forall. intros H Sc c n HS Hk Hn.
+  specialize (H Sc HS). rewrite Hk in H. rewrite forallb_forall in H.
+  assert (Hc : In c [CProc; CAbs; CType]) by (destruct c; simpl; auto).
+  specialize (H c Hc). rewrite forallb_forall in H. specialize (H n Hn).
+  unfold cls_look. destruct c; destruct (spec_resolver _ _ _ n); congruence.
+Qed.
+
 (* For every legal unit the slots FORD fills are those of the Spec in which procedure(n) is read
    "a visible procedure n, else a visible abstract interface n" *)
 Theorem model_is_spec_procs_first evs :
-  wf_events evs = true -> scopes_legal evs = true ->
+  wf_events evs = true -> scopes_legal evs = true -> sub_shadow_free evs = true ->
   forall r, In r (correlate evs) <-> In r (spec_procs_first evs).
 Proof.
-  intros Hwf Hl r. unfold wf_events in Hwf. apply andb_true_iff in Hwf as [Hwf Hnd].
+  intros Hwf Hl Hsf r. unfold wf_events in Hwf. apply andb_true_iff in Hwf as [Hwf Hnd].
   set (all := scopes_of evs) in *.
   assert (ND : NoDup (map s_path all)) by now apply nodup_paths_NoDup.
   assert (NE : forall S0, In S0 all -> s_path S0 <> []).
-  { intros S0 H. apply scopes_of_In in H. eapply wf_ev_nonempty; eauto. }
+  { intros S0 H. apply scopes_of_In in H. now apply (wf_ev_facts [] [] evs S0 Hwf). }
+  assert (Hsub1 : forall S0, In S0 all -> s_kind S0 = KSub -> length (s_path S0) = 1).
+  { intros S0 H. apply scopes_of_In in H. now apply (wf_ev_facts [] [] evs S0 Hwf). }
   assert (LG : forall S0, In S0 all -> scope_legal S0 = true).
   { unfold scopes_legal in Hl. rewrite forallb_forall in Hl. exact Hl. }
-  pose proof (run_spec all ND NE LG evs init_state [] []) as H.
+  pose proof (run_spec all ND NE LG (sub_free_of evs Hsf) Hsub1 evs init_state [] [] []) as H.
   unfold correlate. rewrite H; clear H.
-  - simpl. unfold spec_procs_first. fold all. rewrite in_flat_map. unfold chunkE, chunkX. split.
+  - unfold spec_procs_first. fold all. rewrite in_flat_map. unfold chunkE, chunkX. split.
     + intros [(S0 & H1 & H2)|(S0 & H1 & H2)]; exists S0; (split; [exact H1|]); rewrite map_app, in_app_iff; auto.
     + intros (S0 & H1 & H2). rewrite map_app, in_app_iff in H2. destruct H2; [left | right]; eauto.
-  - intros Sc H. now apply scopes_of_In.
+  - reflexivity.
   - exact Hwf.
   - apply init_inv.
   - simpl. tauto.
@@ -642,18 +915,18 @@ Proof.
 Qed.
 
 Theorem partial_correct evs :
-  wf_events evs = true -> scopes_legal evs = true -> procabs_consistent evs = true ->
+  wf_events evs = true -> scopes_legal evs = true -> sub_shadow_free evs = true -> procabs_consistent evs = true ->
   forall r, In r (correlate evs) <-> In r (spec evs).
 Proof.
-  intros Hwf Hl Hp r. rewrite <- (spec_procs_first_eq evs Hp). now apply model_is_spec_procs_first.
+  intros Hwf Hl Hsf Hp r. rewrite <- (spec_procs_first_eq evs Hp). now apply model_is_spec_procs_first.
 Qed.
 
-(* every slot that is not a procedure(n) reference: no region at all *)
+(* every slot that is not a procedure(n) reference: no abstract-interface region *)
 Theorem types_and_procs_correct evs :
-  wf_events evs = true -> scopes_legal evs = true ->
+  wf_events evs = true -> scopes_legal evs = true -> sub_shadow_free evs = true ->
   forall r, r_look r <> LProcAbs -> (In r (correlate evs) <-> In r (spec evs)).
 Proof.
-  intros Hwf Hl r Hr. rewrite (model_is_spec_procs_first evs Hwf Hl r).
+  intros Hwf Hl Hsf r Hr. rewrite (model_is_spec_procs_first evs Hwf Hl Hsf r).
   unfold spec_procs_first, spec. rewrite !in_flat_map.
   split; intros (Sc & HS & Hin); exists Sc; (split; [exact HS|]);
     apply in_map_iff in Hin as (q & Eq & Hq); apply in_map_iff; exists q; (split; [|exact Hq]);
@@ -679,9 +952,10 @@ Proof.
   congruence.
 Qed.
 
-Definition mkS (p : list string) k procs abs ts gs vs imps : srec :=
+Definition mkSh (p : list string) k procs abs ts gs vs imps (h : list string) : srec :=
   {| s_path := map s p; s_kind := k; s_procs := map s procs; s_abs := map s abs; s_types := ts;
-     s_generics := gs; s_vars := vs; s_imports := imps |}.
+     s_generics := gs; s_vars := vs; s_imports := imps; s_host := map s h |}.
+Definition mkS (p : list string) k procs abs ts gs vs imps : srec := mkSh p k procs abs ts gs vs imps [].
 Definition mkV (n : string) (r : option tyref) : var := {| v_name := s n; v_ref := r |}.
 Definition mkT (n : string) (e : option str) cs bs fs : dtype :=
   {| t_name := s n; t_extends := e; t_comps := cs; t_binds := bs; t_finals := fs |}.
@@ -718,16 +992,63 @@ Definition w_absproc : list event :=
    Exit; Exit].
 Local Close Scope string_scope.
 
+Local Open Scope string_scope.
+(* module m: type t.   submodule (m) s1: its own type t; type(t) :: v *)
+Definition w_subshadow : list event :=
+  [Enter (mkS ["m"] KUnit [] [] [mkT "t" None [] [] []] [] [] []); Exit;
+   Enter (mkSh ["s1"] KSub [] [] [mkT "t" None [] [] []] [] [mkV "v" (Some (TRType (s "t")))] [] ["m"]); Exit].
+(* lib: type u.  module m: types t, u; subroutine helper.  submodule (m) s1: use lib, only: u;
+   subroutine local1.  submodule (m:s1) s2: type(t), type(u), procedure(helper), procedure(local1) *)
+Definition ex_subs : list event :=
+  [Enter (mkS ["m"] KUnit ["helper"] [] [mkT "t" None [] [] []; mkT "u" None [] [] []] [] [] []);
+   Enter (mkS ["m"; "helper"] KProc [] [] [] [] [] []); Exit; Exit;
+   Enter (mkSh ["s1"] KSub ["local1"] [] [] []
+            [mkV "v1" (Some (TRType (s "t"))); mkV "v2" (Some (TRType (s "u")))]
+            [(CType, (s "u", map s ["lib"; "u"]))] ["m"]);
+   Enter (mkS ["s1"; "local1"] KProc [] [] [] [] [mkV "w" (Some (TRType (s "u")))] []); Exit; Exit;
+   Enter (mkSh ["s2"] KSub [] [] [] []
+            [mkV "x1" (Some (TRType (s "t"))); mkV "x2" (Some (TRType (s "u")));
+             mkV "x3" (Some (TRProc (s "helper"))); mkV "x4" (Some (TRProc (s "local1")));
+             mkV "x5" (Some (TRType (s "nosuch_t")))] [] ["s1"]); Exit].
+Local Close Scope string_scope.
+
 Definition refuted_by (evs : list event) (r : res) : Prop :=
   wf_events evs = true /\ scopes_legal evs = true /\ In r (correlate evs) /\ ~ In r (spec evs).
+
+(* inside s1, "t" is s1's own type; FORD takes the module's *)
+Lemma refuted_sub_shadow :
+  refuted_by w_subshadow {| r_scope := map s ["s1"]%string; r_slot := SVar (s "v"); r_look := LType;
+                            r_name := s "t"; r_ent := Some (map s ["m"; "t"]%string) |}
+  /\ sub_shadow_free w_subshadow = false /\ procabs_consistent w_subshadow = true.
+Proof.
+  split; [|split; vm_compute; reflexivity]. split; [vm_compute; reflexivity|]. split; [vm_compute; reflexivity|]. split.
+  - vm_compute. repeat (first [left; reflexivity | right]).
+  - apply not_in_spec. vm_compute. reflexivity.
+Qed.
+(* a chain of submodules: s2 sees the module's t, lib's u (through s1's USE, which hides the
+   module's u), the module's helper and s1's local1; an undeclared name stays a string *)
+Example ex_subs_hypotheses :
+  wf_events ex_subs = true /\ scopes_legal ex_subs = true /\ sub_shadow_free ex_subs = true /\
+  procabs_consistent ex_subs = true /\
+  In {| r_scope := map s ["s2"]%string; r_slot := SVar (s "x1"); r_look := LType; r_name := s "t";
+        r_ent := Some (map s ["m"; "t"]%string) |} (correlate ex_subs) /\
+  In {| r_scope := map s ["s2"]%string; r_slot := SVar (s "x2"); r_look := LType; r_name := s "u";
+        r_ent := Some (map s ["lib"; "u"]%string) |} (correlate ex_subs) /\
+  In {| r_scope := map s ["s2"]%string; r_slot := SVar (s "x4"); r_look := LProcAbs; r_name := s "local1";
+        r_ent := Some (map s ["s1"; "local1"]%string) |} (correlate ex_subs) /\
+  In {| r_scope := map s ["s2"]%string; r_slot := SVar (s "x5"); r_look := LType; r_name := s "nosuch_t";
+        r_ent := None |} (correlate ex_subs).
+Proof.
+  repeat split; try (vm_compute; reflexivity); vm_compute; repeat (first [left; reflexivity | right]).
+Qed.
 
 (* inside a, "x" is a's abstract interface; FORD takes the module procedure x *)
 Lemma refuted_abs_over_proc :
   refuted_by w_absproc {| r_scope := map s ["m"; "a"]%string; r_slot := SVar (s "p"); r_look := LProcAbs;
                           r_name := s "x"; r_ent := Some (map s ["m"; "x"]%string) |}
-  /\ procabs_consistent w_absproc = false.
+  /\ procabs_consistent w_absproc = false /\ sub_shadow_free w_absproc = true.
 Proof.
-  split; [|vm_compute; reflexivity]. split; [vm_compute; reflexivity|]. split; [vm_compute; reflexivity|]. split.
+  split; [|split; vm_compute; reflexivity]. split; [vm_compute; reflexivity|]. split; [vm_compute; reflexivity|]. split.
   - vm_compute. repeat (first [left; reflexivity | right]).
   - apply not_in_spec. vm_compute. reflexivity.
 Qed.
@@ -735,14 +1056,16 @@ Qed.
 (* the two defects repaired in FortranCodeUnit.correlate: their witnesses now get Fortran's answer
    (a's own helper; nothing for the type that only the sibling declares) *)
 Example fixed_proc_shadow :
-  wf_events w_shadow = true /\ scopes_legal w_shadow = true /\ procabs_consistent w_shadow = true /\
+  wf_events w_shadow = true /\ scopes_legal w_shadow = true /\ sub_shadow_free w_shadow = true /\
+  procabs_consistent w_shadow = true /\
   In {| r_scope := map s ["m"; "a"]%string; r_slot := SVar (s "p"); r_look := LProcAbs;
         r_name := s "helper"; r_ent := Some (map s ["m"; "a"; "helper"]%string) |} (correlate w_shadow).
 Proof.
   repeat split; try (vm_compute; reflexivity). vm_compute. repeat (first [left; reflexivity | right]).
 Qed.
 Example fixed_sibling_leak :
-  wf_events w_leak = true /\ scopes_legal w_leak = true /\ procabs_consistent w_leak = true /\
+  wf_events w_leak = true /\ scopes_legal w_leak = true /\ sub_shadow_free w_leak = true /\
+  procabs_consistent w_leak = true /\
   In {| r_scope := map s ["m"; "b"]%string; r_slot := SVar (s "y"); r_look := LType;
         r_name := s "t"; r_ent := None |} (correlate w_leak) /\
   In {| r_scope := map s ["m"]%string; r_slot := SVar (s "z"); r_look := LType;
@@ -783,7 +1106,8 @@ Definition ex_unit : list event :=
 Local Close Scope string_scope.
 
 Example ex_unit_hypotheses :
-  wf_events ex_unit = true /\ scopes_legal ex_unit = true /\ procabs_consistent ex_unit = true /\
+  wf_events ex_unit = true /\ scopes_legal ex_unit = true /\ sub_shadow_free ex_unit = true /\
+  procabs_consistent ex_unit = true /\
   length (correlate ex_unit) = 24 /\
   existsb (fun r => match r_ent r with Some _ => true | None => false end) (correlate ex_unit) = true /\
   existsb (fun r => match r_ent r with Some _ => false | None => true end) (correlate ex_unit) = true /\
